@@ -54,6 +54,9 @@ type Result struct {
 	Msg string `json:"msg,omitempty"` // expected vs observed
 	NT  bool   `json:"nt,omitempty"`  // case is non-trivial by the check's rule
 	Out string `json:"out,omitempty"` // observable outcome (hashed: distinct outcomes)
+	// Sig names a recorded defect when, and only when, the check has verified that this
+	// violation is completely explained by it (KNOWN_FINDINGS.txt "sig=" entries).
+	Sig string `json:"sig,omitempty"`
 	// model-checking counters contributed by this case
 	States int64 `json:"states,omitempty"`
 	Trans  int64 `json:"trans,omitempty"`
